@@ -52,6 +52,7 @@ class P:
 
 
 ANY = P("any")             # arbitrary Python value owned by the host program
+HOSTOBJ = P("hostobj")     # an instance of a class the agent knows nothing about (plugin, user object)
 VAL = P("val")             # any value at all (no ownership assumption)
 INT = P("int")
 STR = P("str")
@@ -360,7 +361,8 @@ class SpecCtx:
     def pre(self, v, clsname, heap=None):
         """v is a pre-existing object (not allocated by this call) of exact class clsname."""
         # "already allocated": cannot alias anything allocated later on this path
-        return z3.And(self.isinst(v, clsname, heap), Val.r(v) > 0, Val.r(v) < self.I.st.next_id)
+        bound = self.I.st.ghost.get("_pre_bound") or self.I.st.next_id
+        return z3.And(self.isinst(v, clsname, heap), Val.r(v) > 0, Val.r(v) < bound)
 
     def fresh(self, name, sort):
         return self.I.ctx.fresh(name, sort)
